@@ -119,15 +119,20 @@ impl<const LM: bool> ParserDefinition<St, u8, Tk, u8> for Def<LM> {
 /// longest-match filter moves a symbolic number of Tokens and CBMC exceeded the 13 GB cap; one concrete case costs about a
 /// minute, so the table is small: no candidate; one; two (shorter first, longer first, tie); three (tie between the last
 /// two which are longest; first longest; all equal).
-fn next_token_harness<const LM: bool>() {
-    next_token_case::<LM>(0, [1, 1, 1], 0);
-    next_token_case::<LM>(1, [2, 1, 1], 2);
-    next_token_case::<LM>(2, [1, 2, 1], 0);
-    next_token_case::<LM>(2, [2, 1, 1], 0);
-    next_token_case::<LM>(2, [2, 2, 1], 1);
-    next_token_case::<LM>(3, [1, 2, 2], 0);
-    next_token_case::<LM>(3, [2, 1, 1], 0);
-    next_token_case::<LM>(3, [1, 1, 1], 0);
+fn next_token_harness<const LM: bool>(part: u8) {
+    // split in three: the eight cases together exceeded the 13 GB cap in CBMC's propositional reduction
+    if part == 0 {
+        next_token_case::<LM>(0, [1, 1, 1], 0);
+        next_token_case::<LM>(1, [2, 1, 1], 2);
+        next_token_case::<LM>(2, [1, 2, 1], 0);
+    } else if part == 1 {
+        next_token_case::<LM>(2, [2, 1, 1], 0);
+        next_token_case::<LM>(2, [2, 2, 1], 1);
+        next_token_case::<LM>(3, [1, 2, 2], 0);
+    } else {
+        next_token_case::<LM>(3, [2, 1, 1], 0);
+        next_token_case::<LM>(3, [1, 1, 1], 0);
+    }
     kani::cover!(true, "all cases executed");
 }
 fn next_token_case<const LM: bool>(lexer_n: usize, lens: [usize; 3], start: usize) {
@@ -191,20 +196,36 @@ fn stub_var_os<K: AsRef<std::ffi::OsStr>>(_key: K) -> Option<std::ffi::OsString>
     None
 }
 
-/// bounded(eight concrete (count, lengths, position) cases with <= 3 candidate tokens; see next_token_harness)
+/// bounded(eight concrete (count, lengths, position) cases with <= 3 candidate tokens, split over three harnesses)
 #[kani::proof]
 #[kani::unwind(6)]
 #[kani::stub(crate::error::error_expected, stub_error_expected)]
 #[kani::stub(std::env::var_os, stub_var_os)]
-fn next_token_longest_match() {
-    next_token_harness::<true>()
+fn next_token_lm_few() {
+    next_token_harness::<true>(0)
+}
+#[kani::proof]
+#[kani::unwind(6)]
+#[kani::stub(crate::error::error_expected, stub_error_expected)]
+#[kani::stub(std::env::var_os, stub_var_os)]
+fn next_token_lm_ties() {
+    next_token_harness::<true>(1)
+}
+#[kani::proof]
+#[kani::unwind(6)]
+#[kani::stub(crate::error::error_expected, stub_error_expected)]
+#[kani::stub(std::env::var_os, stub_var_os)]
+fn next_token_lm_three() {
+    next_token_harness::<true>(2)
 }
 #[kani::proof]
 #[kani::unwind(6)]
 #[kani::stub(crate::error::error_expected, stub_error_expected)]
 #[kani::stub(std::env::var_os, stub_var_os)]
 fn next_token_first_match() {
-    next_token_harness::<false>()
+    next_token_harness::<false>(0);
+    next_token_harness::<false>(1);
+    next_token_harness::<false>(2);
 }
 
 // ---------------------------------------------------------------------------------------------------------------
@@ -307,3 +328,6 @@ fn driver_g1() {
     std::mem::forget(r);
     std::mem::forget(parser);
 }
+
+// Concrete playback (./check <id> --replay): Kani's generated unit test is written to this file, which is empty otherwise.
+include!("/verif/build/gen/playback_rustemo_lr_parser.rs");
